@@ -318,7 +318,7 @@ fn check_inline(bytes: &[u8], expect_ops: usize, data: Option<&[u8]>, out: &mut 
 }
 
 pub fn run(cfg: &RunCfg) -> (PropMeta, ShardOut, Map<String, Value>) {
-    let n = cfg.n(40_000, 3_000_000);
+    let n = cfg.n(40_000, 1_500_000);
     let n_img = cfg.n(8_000, 400_000);
     let per = (n as usize + cfg.threads - 1) / cfg.threads;
     let per_img = (n_img as usize + cfg.threads - 1) / cfg.threads;
